@@ -66,6 +66,8 @@ impl Sub for Seq {
         cx.label_if(st.reopen > 0, "reopen");
         cx.label_if(st.delete_all > 0, "delete_all");
         cx.label_if(st.big_runs > 0, "memory_budget_cut");
+        cx.label_if(st.commits_during_merge_end > 0, "commit_held_while_merge_ends");
+        cx.label_if(c.cfg.codec_switch && st.reopen > 0, "codec_switched");
         cx.count("commits_verified", st.commits as u64);
         let nontrivial = st.same_txn_delete_hits > 0
             || st.rollbacks_with_work > 0
